@@ -283,6 +283,33 @@ def work_responses(_unit):
                                          {"driver": "c19-resp", "stream": name, "chunk": chunk}, len(data), len(got)))
             finally:
                 fw.close()
+    # both directions at once: the client pipelines a command with a synchronising literal while the response to its previous
+    # command is still being relayed; the continuation request may come before, after or between responses, never inside one
+    resp = b"* 1 FETCH (BODY[] {20}\r\nline one\r\nline two\r\n)\r\nx1 OK done\r\n"
+    for cut in range(1, len(resp)):
+        fw = FrontWorld(max_input=LIMIT)
+        try:
+            s = fw.imap_client()
+            s.line(b"a0 LOGIN alice alicepw")
+            base = len(s.out())
+            s.intf.reader.feed_data(resp[:cut])
+            fw.loop.settle()
+            s.feed(b"t2 APPEND INBOX {5}\r\n")
+            fw.loop.settle()
+            s.intf.reader.feed_data(resp[cut:])
+            fw.loop.settle()
+            got = s.out()[base:]
+            n += 1
+            plus = b"+ Ready for more input\r\n"
+            where = got.find(b"+ ")
+            rest = got.replace(plus, b"", 1) if plus in got else got
+            # legal places for the continuation line: the response boundaries (before the FETCH, between FETCH and tagged line, after)
+            legal = [len(b""), resp.index(b"x1 OK"), len(resp)]
+            if rest != resp or (where >= 0 and where not in legal):
+                fails.append(Failure(PROP, "C19.continuation-inside-response", {"inside": "literal" if 24 < where < 46 else "line"},
+                                     {"driver": "c19-resp", "stream": "pipelined", "cut": cut}, "'+' at a response boundary", f"'+' at offset {where} of the relayed response"))
+        finally:
+            fw.close()
     return fails, n, set()
 
 
